@@ -4,6 +4,7 @@ import (
 	"bufio"
 	"bytes"
 	"fmt"
+	"github.com/netflix/rend/verifshim/vsync"
 	"io"
 	"net"
 	"reflect"
@@ -137,6 +138,14 @@ func normalize(r common.Request) common.Request {
 
 // parseAll feeds the stream with the given cuts and checks the decoded sequence.
 func parseAll(proto string, stream []byte, cuts []int, wants []want) (clause, detail string) {
+	clause, detail = parseAll0(proto, stream, cuts, wants)
+	if dp := vsync.TakeDoublePuts(); len(dp) > 0 && clause == "" {
+		return "pooled-object-put-twice", "decoding this stream returned a pooled object to its pool twice (two later requests, possibly of different connections, will share it): " + dp[0]
+	}
+	return
+}
+
+func parseAll0(proto string, stream []byte, cuts []int, wants []want) (clause, detail string) {
 	sr := &segReader{b: stream, cuts: cuts}
 	p := newParser(proto, sr)
 	for i, w := range wants {
